@@ -2,17 +2,21 @@
    Statements only; proofs in C02_Basis.v (bspline_deriv_nonzero = de Boor's derivative formula, one dimension,
    margins included), C02_Proofs.v (assembly) and C03_Proofs.v (gradient lanes).
 
-   "Partial derivative" is formalised as de Boor's derivative formula applied to the Cox–de Boor functions,
+   "Partial derivative" enters through de Boor's derivative formula applied to the Cox–de Boor functions,
        B'_{i,n} = n ( B_{i,n-1}/(t_{i+n}-t_i) - B_{i+1,n-1}/(t_{i+n+1}-t_{i+1}) )            (BSpline.dBfun),
-   with the same one-sided convention as plain evaluation. That this formula is d/dx of the piecewise polynomial
-   (de Boor, A Practical Guide to Splines, ch. X (8)) is the textbook identity and is NOT re-proved here; the check
-   cross-validates it numerically against exact rational difference quotients. Statements hold over every ordered field.
+   with the same one-sided convention as plain evaluation; the evaluation theorems below hold over every ordered field.
+   That the formula IS the derivative is proved too, for strictly increasing knots: algebraically over every ordered
+   field (C02_piece_derivative_formula: differentiating the polynomial piece by the sum and product rules yields the
+   formula, for every x) and analytically over the real numbers (C02_formula_is_the_derivative: Coquelicot's is_derive at
+   every point strictly inside a knot interval; this one theorem depends on the standard library's real-number axioms).
 
    Not covered by a theorem (stated, tested, and partly a known finding): ndsplineeval_deriv with a derivative order >= 2,
    which uses the recursive right-continuous bspline_deriv and therefore the RIGHT piece exactly on knots at or above the
    upper end of full support (finding D3, C02:deriv>=2@x>=upper_full_support_knot). *)
 From Coq Require Import ZArith List Bool Lia QArith Qcanon.
-From PS Require Import Arith EvalModel BSpline C04_Proofs OFieldKit C01_Basis C01_Core C01_Proofs C02_Basis C02_Proofs C03_Proofs.
+From Coq Require Import Reals.
+From Coquelicot Require Coquelicot.
+From PS Require Import Arith EvalModel BSpline C04_Proofs OFieldKit C01_Basis C01_Core C01_Proofs C02_Basis C02_Proofs C03_Proofs C02_Analytic C02_Real.
 Import ListNotations.
 Local Open Scope Z_scope.
 
@@ -73,6 +77,28 @@ End C02.
 Theorem C02_high_order_zero : forall (A : Arith) (F : OField A) (kn : Z -> T A) side n k i x, (n < k)%nat -> dBfun kn side k n i x = zero.
 Proof. intros A F kn side n k i x H. exact (dB_high_order_zero F kn side n k i x H). Qed.
 
+(* The derivative formula is the derivative of the polynomial piece. [Bp l n i] is the Cox–de Boor recurrence with the order-0
+   indicator replaced by "i = l" (a polynomial function of x, equal to B_{i,n} on knot interval l: Bfun_is_piece), [Dp l n i] is
+   what the sum and product rules of differentiation give for that expression. For strictly increasing knots, for EVERY x: *)
+Theorem C02_piece_derivative_formula : forall (A : Arith) (F : OField A),
+  @ofZ A 0 = zero -> (forall z, 0 <= z -> @ofZ A (z + 1) = add (ofZ z) one) ->      (* int -> field conversion is the ring homomorphism *)
+  forall (kn : Z -> T A) (nknots : Z), (forall i j, 0 <= i -> i < j -> j < nknots -> OFieldKit.lt (kn i) (kn j)) ->
+  forall l n i x, 0 <= i -> i + Z.of_nat (S n) + 1 < nknots ->
+  Dp kn l (S n) i x =
+  mul (ofZ (Z.of_nat (S n)))
+      (sub (div (Bp kn l n i x) (sub (kn (i + Z.of_nat (S n))) (kn i)))
+           (div (Bp kn l n (i + 1) x) (sub (kn (i + Z.of_nat (S n) + 1)) (kn (i + 1))))).
+Proof. intros A F H0 H1 kn nknots Hs l n i x Hi0 Hi1. exact (Dp_formula F H0 H1 kn nknots Hs l n i x Hi0 Hi1). Qed.
+
+(* Over the real numbers: at every point strictly inside a knot interval the Cox–de Boor function is differentiable and its
+   derivative is the value of the derivative formula. *)
+Theorem C02_formula_is_the_derivative : forall (kn : Z -> R) (nknots : Z),
+  (forall i j, 0 <= i -> i < j -> j < nknots -> (kn i < kn j)%R) ->
+  forall l, 0 <= l -> l + 1 < nknots ->
+  forall n i (x0 : R), 0 <= i -> i + Z.of_nat n + 1 < nknots -> (kn l < x0 < kn (l + 1)%Z)%R ->
+  @Coquelicot.Derive.is_derive Coquelicot.Hierarchy.R_AbsRing Coquelicot.Hierarchy.R_NormedModule (fun x : R => @Bfun RA kn true n i x) x0 (@dBfun RA kn true 1 n i x0).
+Proof. intros kn nknots Hs l Hl0 Hl1 n i x0 Hi0 Hi1 Hx. exact (dB_is_the_derivative kn nknots Hs l Hl0 Hl1 n i x0 Hi0 Hi1 Hx). Qed.
+
 (* which derivative orders a bitmask denotes *)
 Theorem C02_bits_of_spec : forall n mask d, 0 <= mask -> (d < n)%nat ->
   nth d (bits_of n mask) O = if Z.testbit mask (Z.of_nat d) then 1%nat else O.
@@ -125,6 +151,8 @@ Print Assumptions C02_gradient_components.
 Print Assumptions C02_order0_derivative_zero.
 Print Assumptions C02_deriv_is_derivative_sum.
 Print Assumptions C02_high_order_zero.
+Print Assumptions C02_piece_derivative_formula.
+Print Assumptions C02_formula_is_the_derivative.
 Print Assumptions C02_bits_of_spec.
 Print Assumptions C02_local_derivative_basis.
 Print Assumptions C02_hypotheses_satisfiable.
